@@ -1,0 +1,41 @@
+//go:build verif
+
+// Contracts for package web (comment-only; read by /verif/bin/zv, never compiled into the product).
+package web
+
+// C19: webAuthed is set only by authenticate returning true; data-serving calls in the handlers must be preceded by it.
+//@ ghost var webAuthed Bool
+
+// only_valid: a request is accepted only if OAuth is not configured, or it carries the static token, or it carries a
+// session cookie that decoded (decoded), is not expired at the time of the check (not_expired) and whose user is in the org.
+//@ func (*handler).authenticate
+//@   modifies *
+//@   ensures only_valid: result ==> old(h.Opts.OAuthClientID) == "" || old(h.Opts.OAuthClientSecret) == "" ||
+//@       (old(h.Opts.Password) != "" && password != "" && password == old(h.Opts.Password)) || (err == nil && inOrg)
+//@   at call userInOrg assert decoded: err == nil
+//@   at call userInOrg assert not_expired: !ad.Expiration.Before(lastNow)
+//@   ghost_ensures webAuthed == result
+
+//@ func (*handler).sqlQuery
+//@   requires !webAuthed
+//@   modifies *
+//@   at call (*web.handler).query assert auth_before_query: webAuthed
+//@   at call respondWithCacheEntry assert auth_before_respond: webAuthed
+
+//@ func (*handler).cachedQuery
+//@   requires !webAuthed
+//@   modifies *
+//@   at call getByPermalink assert auth_before_cache: webAuthed
+//@   at call respondWithCacheEntry assert auth_before_respond: webAuthed
+
+//@ func (*handler).index
+//@   requires !webAuthed
+//@   modifies *
+//@   at call ResponseWriter.Write assert auth_before_write: webAuthed
+//@   at call io.Copy assert auth_before_copy: webAuthed
+
+//@ func (*handler).metrics
+//@   requires !webAuthed
+//@   modifies *
+//@   at call GetStats assert auth_before_stats: webAuthed
+//@   at call Encode assert auth_before_encode: webAuthed
